@@ -220,6 +220,16 @@ class Exec:
             node = found
         return node
 
+    def pc_implies(self, ctx: Ctx, cond) -> bool:
+        if not ctx.pc:
+            return False
+        s = z3.Solver()
+        s.set("timeout", int(self.branch_timeout_s * 1000))
+        for c in ctx.pc:
+            s.add(c)
+        s.add(z3.Not(cond))
+        return s.check() == z3.unsat
+
     def feasible(self, ctx: Ctx, cond=None) -> bool:
         cs = list(ctx.pc) + ([cond] if cond is not None else [])
         s = z3.Solver()
@@ -766,7 +776,10 @@ class Exec:
 
     def e_Name(self, e, ctx):
         if e.id in ctx.env:
-            return [(ctx, ctx.env[e.id])]
+            v = ctx.env[e.id]
+            if isinstance(v, Opt) and self.pc_implies(ctx, z3.Not(v.is_none)):
+                return [(ctx, v.val)]  # an Optional known not to be None on this path is its value
+            return [(ctx, v)]
         if e.id in ctx.heap:
             return [(ctx, ("__heap__", e.id))]
         if e.id in self.globals:
